@@ -328,13 +328,24 @@ def inert_cell(P, A):
     root_snap = B.snap(ro.xml)
     mid = ro.xml.find('messageID').text
     if P['op'] == 'roDelete':
-        msg = M.ro_delete(msg_id=A.get('mid2', '9'))
+        # the roDelete's own roID text is free (padded, stale after a roReplace, ...): completion does not
+        # depend on it
+        msg = M.ro_delete(msg_id=A.get('mid2', '9'), ro_id=A['rd'] if 'rd' in A else 'RO')
         sent = B.snap(msg.base_tag)
     else:
         msg = M.ready_to_air()
     was_completed = ro.completed
     out = B.merge(ro, msg)
     B.hit()
+    if P.get('twice'):
+        # a second roDelete (same or different roID, blank roID): refused or not, never a second record
+        o2 = B.merge(ro, M.ro_delete(msg_id='77', ro_id={'same': 'RO', 'blank': None, 'free': A.get('rd2')}[P['twice']]))
+        if len(ro.xml.findall('mosromgrmeta')) != 1:
+            B.note(sig='completion-records-%d' % len(ro.xml.findall('mosromgrmeta')), observed=[c.tag for c in ro.xml])
+            return False
+        if not (o2.raised and type(o2.exc).__name__ == 'MosCompletedMergeError'):
+            B.note(sig='second-roDelete-not-refused', observed=B.conc(o2.exc))
+            return False
     sig = None
     if out.raised:
         sig = 'raised-' + type(out.exc).__name__
